@@ -84,6 +84,36 @@ def map_history(ops):
                       samples=6, maxpaths=500)
 
 
+def struct_fp(e, depth=0):
+    "structural fingerprint of an expression: class, size, sign flag and the same of every sub-expression (what printing does not show)"
+    if not isinstance(e, E.exp) or depth > 12:
+        return repr(e)
+    kids = []
+    if e._is_cst:
+        kids.append(int(e.v))
+    elif e._is_slc:
+        kids += [struct_fp(e.x, depth + 1), e.pos]
+    elif e._is_cmp:
+        kids += [(k, struct_fp(v, depth + 1)) for k, v in sorted(e.parts.items())]
+    elif e._is_eqn:
+        kids.append(getattr(e.op, "symbol", None))
+        if getattr(e, "l", None) is not None:
+            kids.append(struct_fp(e.l, depth + 1))
+        kids.append(struct_fp(e.r, depth + 1))
+        kids.append(getattr(e, "prop", None))
+    elif e._is_tst:
+        kids += [struct_fp(e.tst, depth + 1), struct_fp(e.l, depth + 1), struct_fp(e.r, depth + 1)]
+    elif e._is_mem:
+        kids += [struct_fp(e.a, depth + 1), e.endian, [(struct_fp(l, depth + 1), struct_fp(v, depth + 1)) for l, v in e.mods]]
+    elif e._is_ptr:
+        kids += [struct_fp(e.base, depth + 1), e.disp, str(e.seg)]
+    elif e._is_vec:
+        kids += [struct_fp(x, depth + 1) for x in e.l]
+    elif e._is_reg or e._is_ext:
+        kids += [e.ref, getattr(e, "etype", None)]
+    return (type(e).__name__, e.size, bool(e.sf), kids)
+
+
 def _pickle_rt(tier, seed, only=None):
     rng = random.Random("pickle/%s" % seed)
     fails = []
@@ -100,12 +130,12 @@ def _pickle_rt(tier, seed, only=None):
 
         def assume(self, c):
             pass
-    for w in widths:
-        pool = T.depth1(w, "U") + T.depth2(w, "U")
-        for rc in rng.sample(pool, min(len(pool), 150 if tier == "quick" else 3000)):
-            if only is not None and T.show(rc) != only.get("recipe"):
+    for w, world in [(w, world) for w in widths for world in ("U", "S", "M")]:
+        pool = T.depth1(w, world) + T.depth2(w, world)
+        for rc in rng.sample(pool, min(len(pool), (150 if world == "U" else 60) if tier == "quick" else 3000)):
+            if only is not None and (T.show(rc) != only.get("recipe") or only.get("world", "U") != world):
                 continue
-            env = T.Env(w, "U", V0())
+            env = T.Env(w, world, V0())
             try:
                 e = T.build(rc, env, [])
             except Exception:
@@ -114,7 +144,7 @@ def _pickle_rt(tier, seed, only=None):
                 continue
             n += 1
             distinct.add(type(e).__name__ + T.show(rc)[:12])
-            inp = {"recipe": T.show(rc), "w": w}
+            inp = {"recipe": T.show(rc), "w": w, "world": world}
             try:
                 e2 = pickle.loads(pickle.dumps(e))
             except Exception as ex:
@@ -125,6 +155,8 @@ def _pickle_rt(tier, seed, only=None):
                 bad = "prints %s, original %s" % (e2, e)
             elif e2.size != e.size:
                 bad = "size %d, original %d" % (e2.size, e.size)
+            elif struct_fp(e2) != struct_fp(e):
+                bad = "structure (class, size, sign flag of a sub-expression) %s, original %s" % (struct_fp(e2), struct_fp(e))
             else:
                 for _ in range(4):
                     rho = {k: rng.randint(0, (1 << r.size) - 1) for k, r in env.regs.items()}
